@@ -90,6 +90,72 @@ def _static_worker(name):
         return dict(name=name, rows=[], error=f"{type(ex).__name__}: {ex}\n{traceback.format_exc()[-800:]}", wall=0)
 
 
+def _standin_worker(args):
+    import bounded
+
+    name, pid, tier, seed = args
+    try:
+        return bounded.run_standin(name, pid, tier, seed)
+    except Exception as exn:
+        return {"name": name, "error": f"{type(exn).__name__}: {exn}", "passed": 0, "failures": []}
+
+
+def _child(fn, arg, q):
+    try:
+        q.put(fn(arg))
+    except BaseException as ex:  # pragma: no cover
+        q.put({"__crash__": f"{type(ex).__name__}: {ex}"})
+
+
+def run_tasks(tasks, jobs, per_task):
+    """[(kind, name, fn, arg)] -> [(kind, name, result | None, timed_out)], each task in its own process, killed at its deadline"""
+    import multiprocessing as mp
+
+    ctx = mp.get_context("fork")
+    pending = list(tasks)
+    running = []
+    out = []
+    while pending or running:
+        while pending and len(running) < jobs:
+            kind, name, fn, arg = pending.pop(0)
+            q = ctx.Queue()
+            p = ctx.Process(target=_child, args=(fn, arg, q))
+            p.start()
+            running.append((kind, name, p, q, time.time()))
+        time.sleep(0.05)
+        still = []
+        for kind, name, p, q, t0 in running:
+            res = None
+            try:
+                res = q.get_nowait()
+                got = True
+            except Exception:
+                got = False
+            if got:
+                p.join(5)
+                if p.is_alive():
+                    p.kill()
+                if isinstance(res, dict) and "__crash__" in res:
+                    res = {"target": name, "name": name, "error": res["__crash__"], "rows": [], "failures": []} if kind != "lemmas" else None
+                out.append((kind, name, res, False))
+            elif not p.is_alive():
+                try:
+                    res = q.get(timeout=1)
+                    out.append((kind, name, res, False))
+                except Exception:
+                    out.append((kind, name, None, True))
+            elif time.time() - t0 > per_task:
+                p.kill()
+                p.join(5)
+                out.append((kind, name, None, True))
+            else:
+                still.append((kind, name, p, q, t0))
+        running = still
+    order = {(k, n): i for i, (k, n, _, _) in enumerate(tasks)}
+    out.sort(key=lambda r: order.get((r[0], r[1]), 0))
+    return out
+
+
 def _lemma_worker(_):
     from pyvc import lemmas
 
@@ -136,26 +202,28 @@ def main():
         print(f"CHECKER-FAULT property={pid}: no contract serves this property")
         return 3
 
-    results = []
-    lemma_results = []
-    with ProcessPoolExecutor(max_workers=a.jobs) as ex:
-        futs = [ex.submit(_contract_worker, (t, seed)) for t in targets]
-        need_lemmas = any(REGISTRY[t].uses for t in targets)
-        lf = ex.submit(_lemma_worker, 0) if need_lemmas else None
-        sf = [(s, ex.submit(bounded.run_standin, s["name"], pid, tier, seed)) for s in standins]
-        stf = [ex.submit(_static_worker, n) for n in statics]
-        for f in futs:
-            results.append(f.result())
-        if lf is not None:
-            lemma_results = lf.result()
-        standin_results = []
-        for s, f in sf:
-            try:
-                standin_results.append(f.result())
-            except Exception as exn:
-                standin_results.append({"name": s["name"], "error": f"{type(exn).__name__}: {exn}", "passed": 0, "failures": []})
-
-        static_results = [f.result() for f in stf]
+    # every task runs in its own process with a deadline; a task that does not finish is *undecided* (never a violation)
+    per_task = int(os.environ.get("VERIF_TASK_TIMEOUT", "300" if tier == "quick" else "1500"))
+    tasks = [("contract", t, _contract_worker, (t, seed)) for t in targets]
+    if any(REGISTRY[t].uses for t in targets):
+        tasks.append(("lemmas", "lemmas", _lemma_worker, 0))
+    tasks += [("standin", s["name"], _standin_worker, (s["name"], pid, tier, seed)) for s in standins]
+    tasks += [("static", n, _static_worker, n) for n in statics]
+    done = run_tasks(tasks, a.jobs, per_task)
+    results, lemma_results, standin_results, static_results = [], [], [], []
+    for kind, name, out, timed_out in done:
+        if kind == "contract":
+            if timed_out or out is None:
+                out = {"target": name, "error": None, "errors": [f"unsupported: verification did not finish within {per_task} s (undecided)"], "obligations": [{"id": "timeout", "kind": "timeout", "label": "timeout", "props": [], "status": "unknown", "backend": "-", "ms": 0, "path": 0, "where": "", "model": None, "detail": ""}],
+                       "vacuity": ["unknown"], "wall": per_task, "src_hash": "?", "span": [0, 0], "file": "?", "paths": 0, "ended": 0, "covers": {}, "inlined": [], "havoced": [],
+                       "contracts_used": [], "externals_used": [], "uses": [], "samples": []}
+            results.append(out)
+        elif kind == "lemmas":
+            lemma_results = out or [{"lemma": "all", "discharged": False, "stages": [("timeout", "unknown")], "ms": 0.0}]
+        elif kind == "standin":
+            standin_results.append(out if out is not None else {"name": name, "error": f"stand-in did not finish within {per_task} s", "passed": 0, "failures": []})
+        else:
+            static_results.append(out if out is not None else {"name": name, "rows": [], "error": f"static check did not finish within {per_task} s", "wall": per_task})
 
     from report import finish
 
